@@ -37,6 +37,7 @@ def _alarm(signum, frame):
 # proposal tally (independent of shell_n_sample): class-level wrappers, installed once per process
 # --------------------------------------------------------------------------------------------
 
+EVALS = []          # len(points) of every Sampler.evaluate_likelihood call
 TALLY = []          # (id(bound), n_points_requested, n_returned) for every sample() that RETURNS points
 _PATCHED = False
 
@@ -59,6 +60,14 @@ def install_tally():
         if return_points:
             TALLY.append((id(self), n_points, len(pts)))
         return pts
+    from nautilus import Sampler
+    ev = Sampler.evaluate_likelihood
+
+    def evl(self, points):
+        EVALS.append(len(points))
+        return ev(self, points)
+    evl.__wrapped__ = ev
+    Sampler.evaluate_likelihood = evl
     uc.__wrapped__ = uc_sample
     nb.__wrapped__ = nb_sample
     UnitCube.sample = uc
@@ -72,7 +81,7 @@ def install_tally():
 
 class State:
     __slots__ = ('pick', 'file', 'evald', 'resumes', 'toggles', 'terminal', 'path', 'skey', 'fkey',
-                 'ekey', 'key', 'depth', 'target', 'toggled', 'nsched')
+                 'ekey', 'key', 'depth', 'target', 'toggled', 'nsched', 'exp_points', 'thist', 'thist_ck')
 
     def sampler(self):
         return pickle.loads(zlib.decompress(self.pick))
@@ -121,7 +130,8 @@ class Engine:
         with open(self.path, 'rb') as f:
             return f.read()
 
-    def capture(self, sampler, parent, action, terminal=False, evald=None, target=None):
+    def capture(self, sampler, parent, action, terminal=False, evald=None, target=None,
+                parent_explored=False):
         st = State()
         st.skey = core.sampler_digest(sampler)
         st.pick = zlib.compress(pickle.dumps(sampler, protocol=4), 1)
@@ -135,11 +145,35 @@ class Engine:
         st.toggled = (parent.toggled if parent else False) or bool(action and action[0] == 'toggle')
         st.nsched = (parent.nsched if parent else 0) + (1 if action and action[0] == 'sched' else 0)
         st.terminal = terminal
+        # history variables of C12: points evaluated before exploration ended (None = unknown,
+        # the flip happened inside a multi-batch action), toggle history
+        pe = parent.exp_points if parent else None
+        pre_explored = parent_explored
+        if parent is not None and pe is None and bool(sampler.explored) and not pre_explored:
+            single = action[0] in ('step', 'raise', 'runarg') or (
+                action[0] == 'tick' and action[1] == 2)
+            pe = st.evald if single else None
+        st.exp_points = pe
+        th = parent.thist if parent else (0, ())
+        if action and action[0] == 'toggle':
+            if pre_explored:
+                th = (th[0], th[1] + (int(sampler.n_like),))
+            else:
+                th = (1 - th[0], th[1])
+        if action and action[0] == 'resume':
+            th = parent.thist_ck          # toggles made after the last checkpoint are not persisted
+        st.thist = th
+        if parent is None:
+            st.thist_ck = th
+        elif st.file != parent.file or action[0] == 'resume':
+            st.thist_ck = th
+        else:
+            st.thist_ck = parent.thist_ck
         st.target = target if target is not None else (parent.target if parent else None)
         st.path = (parent.path if parent else ()) + ((action,) if action else ())
         st.depth = len(st.path)
         st.key = '|'.join([st.skey, st.fkey, st.ekey, str(int(terminal)), repr(st.target),
-                           str(int(st.toggled))])
+                           repr(st.thist)])
         return st
 
     def initial(self):
@@ -158,6 +192,8 @@ class Engine:
             s.filepath = self.path
         scen.log_reset()
         del TALLY[:]
+        del EVALS[:]
+        ctx_ids = [id(b) for b in post.bounds]
         self.clock.t = 0
         ctx = dict(scn=scn, pre=pre, post=post, action=action, state=st, ret=None, exc=None,
                    out='', engine=self, pre_file=st.file)
@@ -193,6 +229,8 @@ class Engine:
         ctx['log_prior'] = scen.LOG['prior']
         ctx['log_like'] = scen.LOG['like']
         ctx['tally'] = list(TALLY)
+        ctx['evals'] = list(EVALS)
+        ctx['bound_ids_before'] = ctx_ids
         ctx['clock'] = self.clock.t
         self.transitions += 1
         new = None
@@ -206,9 +244,11 @@ class Engine:
                 newpts = [np.ascontiguousarray(r).tobytes() for r in allp]
                 evald = st.evald | frozenset(newpts)
             ctx['new_points'] = newpts
+            ctx['dup_points'] = (len(set(newpts)) != len(newpts)) or bool(st.evald & frozenset(newpts))
             terminal = (ret is not None and bool(ret)) and kind in ('step', 'run2', 'finish', 'raise', 'tick', 'cap',
                                                   'runarg')
-            new = self.capture(post, st, action, terminal=terminal, evald=evald, target=target)
+            new = self.capture(post, st, action, terminal=terminal, evald=evald, target=target,
+                               parent_explored=bool(pre.explored))
         ctx['new'] = new
         for mon in self.monitors:
             try:
@@ -361,7 +401,7 @@ def explore(scn, alphabet, monitors, R=1, T=0, S=0, max_states=4000, loops=None,
                             path=[list(a) for a in new.path], type=type(e).__name__,
                             msg=str(e)[:300], site=site))
                         continue
-                    cls = (repr(new.target), new.toggled)
+                    cls = (repr(new.target), repr(new.thist))
                     res['terminals'].setdefault(cls, {}).setdefault(d, dict(
                         summary=summ, path=[list(a) for a in new.path], count=0))['count'] += 1
                 if all(a == ('step',) for a in new.path) and len(res['default_keys']) == new.depth:
